@@ -28,6 +28,7 @@ import (
 	"net/http"
 	"net/http/httptest"
 	"net/url"
+	"runtime"
 	"sync"
 	"time"
 
@@ -470,6 +471,14 @@ func eqInts(a, b []int64) bool {
 	return true
 }
 
+// slowLogger: a logger that gives the processor away on every call (as one that writes to a file or a socket does)
+type slowLogger struct{}
+
+func (slowLogger) Debug(string, ...any) { runtime.Gosched() }
+func (slowLogger) Info(string, ...any)  { runtime.Gosched() }
+func (slowLogger) Warn(string, ...any)  { runtime.Gosched() }
+func (slowLogger) Error(string, ...any) { runtime.Gosched() }
+
 func validURL(key, id int64) bool {
 	return id >= 0 && id < int64(len(urlTable)) && tableKeys[id] == key
 }
@@ -493,6 +502,10 @@ func (c *rrComp) Run(h *hlib.History) ([]hlib.Mon, bool) {
 	var opts []roundrobin.LBOption
 	if sticky {
 		opts = append(opts, roundrobin.EnableStickySession(roundrobin.NewStickySession("c")))
+	}
+	if (dw+int64(len(h.Ops)))%2 == 0 { // half of the balancers log verbosely, through a logger that takes its time
+		opts = append(opts, roundrobin.Verbose(true), roundrobin.Logger(slowLogger{}))
+		hlib.Count("verbose_balancers", 1)
 	}
 	rr, err := roundrobin.New(next, opts...)
 	if err != nil {
